@@ -1,6 +1,7 @@
 package main
 
 import (
+	"go/constant"
 	"go/token"
 	"strings"
 
@@ -22,35 +23,91 @@ func ReachUnder(fn *ssa.Function, eval CondFn) *Live {
 	if len(fn.Blocks) == 0 {
 		return l
 	}
-	stack := []*ssa.BasicBlock{fn.Blocks[0]}
-	l.Blocks[fn.Blocks[0]] = true
-	for len(stack) > 0 {
-		b := stack[len(stack)-1]
-		stack = stack[:len(stack)-1]
-		take := func(i int) {
-			l.Edges[Edge{b, i}] = true
-			s := b.Succs[i]
-			if !l.Blocks[s] {
+	// evalCond decides a (NOT-stripped) condition: directly, or - for a boolean phi (short-circuit && / ||, switch
+	// cases) - when every incoming edge that is live so far carries the same decided value.
+	var evalCond func(base ssa.Value, depth int) (bool, bool)
+	evalCond = func(base ssa.Value, depth int) (bool, bool) {
+		if v, known := eval(base); known {
+			return v, true
+		}
+		if depth > 4 {
+			return false, false
+		}
+		switch x := base.(type) {
+		case *ssa.Const:
+			if x.Value != nil && x.Value.Kind() == constant.Bool {
+				return constant.BoolVal(x.Value), true
+			}
+		case *ssa.UnOp:
+			if x.Op == token.NOT {
+				if v, known := evalCond(x.X, depth+1); known {
+					return !v, true
+				}
+			}
+		case *ssa.Phi:
+			first, have := false, false
+			for i, e := range x.Edges {
+				if !l.PredLive(x.Block(), i) {
+					continue
+				}
+				v, known := evalCond(e, depth+1)
+				if !known {
+					return false, false
+				}
+				if have && v != first {
+					return false, false
+				}
+				first, have = v, true
+			}
+			if have {
+				return first, true
+			}
+		}
+		return false, false
+	}
+	// liveness only grows; iterate until no edge is added (a phi condition decided on the edges seen so far may
+	// become undecided when another incoming edge turns out to be live)
+	for {
+		before := len(l.Edges)
+		seen := map[*ssa.BasicBlock]bool{fn.Blocks[0]: true}
+		stack := []*ssa.BasicBlock{fn.Blocks[0]}
+		l.Blocks[fn.Blocks[0]] = true
+		for len(stack) > 0 {
+			b := stack[len(stack)-1]
+			stack = stack[:len(stack)-1]
+			take := func(i int) {
+				l.Edges[Edge{b, i}] = true
+				s := b.Succs[i]
 				l.Blocks[s] = true
-				stack = append(stack, s)
+				if !seen[s] {
+					seen[s] = true
+					stack = append(stack, s)
+				}
+			}
+			decided := false
+			if i := blockIf(b); i != nil {
+				base, neg := stripNot(i.Cond)
+				if v, known := evalCond(base, 0); known {
+					if neg {
+						v = !v
+					}
+					if v {
+						take(0)
+					} else {
+						take(1)
+					}
+					decided = true
+				}
+			}
+			// edges taken in an earlier round stay taken
+			for i := range b.Succs {
+				if !decided || l.Edges[Edge{b, i}] {
+					take(i)
+				}
 			}
 		}
-		if i := blockIf(b); i != nil {
-			base, neg := stripNot(i.Cond)
-			if v, known := eval(base); known {
-				if neg {
-					v = !v
-				}
-				if v {
-					take(0)
-				} else {
-					take(1)
-				}
-				continue
-			}
-		}
-		for i := range b.Succs {
-			take(i)
+		if len(l.Edges) == before {
+			break
 		}
 	}
 	return l
